@@ -170,8 +170,13 @@ def impl_far(zen, azi):
     ff = m.far_field
     rows = list(zip(ff.zen.flat, ff.azi.flat))
     nrows_gain = ff.gain.reshape(-1, 3).shape[0]
-    txt = ff.db_as_mininec().split('\n')
-    return rows, nrows_gain, len(txt)
+    # both tables of the pattern, each rendered twice (a report with both result options prints both; a table is a function
+    # of the pattern, not of what was printed before): the smallest row count is judged
+    counts = []
+    for _ in range(2):
+        counts.append(len([l for l in ff.db_as_mininec().split('\n') if l.strip()]))
+        counts.append(len([l for l in ff.abs_gain_as_mininec().split('\n') if l.strip()]))
+    return rows, nrows_gain, min(counts)
 
 
 def prop_far(zen, azi, rows, ngain, ntxt):
